@@ -607,8 +607,15 @@ func (w *Worker) buildFixture(st *State) *Fixture {
 		holeTexts = append(holeTexts, k)
 	}
 	sort.Strings(holeTexts)
+	unrenderable := false
 	for _, ov := range st.outVals {
-		r := env.render(ov.v)
+		r, ok := env.renderGuarded(ov.v)
+		if !ok {
+			// e.g. an Accessor whose Get would have to fork on a symbolic index: the output
+			// is not predicted for this witness (its assertions still must hold natively)
+			unrenderable = true
+			continue
+		}
 		for _, k := range holeTexts {
 			r = strings.ReplaceAll(r, k, fx.Holes[k])
 		}
@@ -618,6 +625,25 @@ func (w *Worker) buildFixture(st *State) *Fixture {
 		fx.Viol = append(fx.Viol, v.Label)
 	}
 	fx.Panics = st.Status == PathPanicked
-	fx.Approx = st.Approx
+	fx.Approx = st.Approx || unrenderable
 	return fx
+}
+
+// renderGuarded renders an output value; a nested call made while rendering
+// (Accessor.Get) that needs a fork or hits an engine limit makes the value
+// unrenderable instead of ending the process.
+func (e *modelEnv) renderGuarded(v Value) (r string, ok bool) {
+	depth := e.s.W.inNested
+	defer func() {
+		if x := recover(); x != nil {
+			switch x.(type) {
+			case abortReq, forkReq, skipReq, goPanicReq:
+				e.s.W.inNested = depth
+				r, ok = "", false
+			default:
+				panic(x)
+			}
+		}
+	}()
+	return e.render(v), true
 }
